@@ -759,4 +759,194 @@ theorem callLine_fixed (v : Variant) (hv : v.cc = true) (hi : v.idx = true) (sel
       rw [hf]
       simp [this.1, this.2, hv1]
 
+
+/-! ## refinement to the stamp-free list -/
+
+theorem vis_clock_eq_live {db : DB α} (h : WF db) (e : Entry α) (he : e ∈ db.chain) :
+    e.vis db.clock = e.live := by
+  have hb := h.birth_lt e he
+  have hd := h.death_ok e he
+  cases e with
+  | mk id b d cl =>
+    cases d with
+    | none => simp [Entry.vis, Entry.live] at hb ⊢; exact hb
+    | some d =>
+      have := (hd d rfl).2
+      simp [Entry.vis, Entry.live] at this ⊢
+      intro _; omega
+
+/-- under the stamps invariant a call starting now sees exactly the clauses not yet retracted -/
+theorem snapshot_eq_liveList {db : DB α} (h : WF db) : db.snapshot = db.liveList := by
+  unfold DB.snapshot DB.liveList view
+  congr 1
+  apply List.filter_congr
+  intro e he
+  exact vis_clock_eq_live h e he
+
+theorem live_kill_filter (id clock : Nat) (l : List (Entry α)) :
+    ((l.map (fun e => if targets id e then e.kill clock else e)).filter Entry.live).map
+        (fun e => (e.id, e.cl))
+      = (((l.filter Entry.live).map (fun e => (e.id, e.cl))).filter (fun p => p.1 != id)) := by
+  induction l with
+  | nil => rfl
+  | cons e l ih =>
+    by_cases ht : targets id e = true
+    · have hl : e.live = true := by simp [targets] at ht; exact ht.2
+      have hi : e.id = id := by simp [targets] at ht; exact ht.1
+      have hk : (e.kill clock).live = false := rfl
+      simp [ht, hk, hl, hi, ih]
+    · by_cases hl : e.live = true
+      · have hi : e.id ≠ id := fun h => ht (by simp [targets, h, hl])
+        simp [ht, hl, hi, ih]
+      · simp [ht, hl, ih]
+
+theorem live_no_target (id : Nat) (l : List (Entry α)) (h : l.any (targets id) = false) :
+    (((l.filter Entry.live).map (fun e => (e.id, e.cl))).filter (fun p => p.1 != id))
+      = (l.filter Entry.live).map (fun e => (e.id, e.cl)) := by
+  induction l with
+  | nil => rfl
+  | cons e l ih =>
+    simp only [List.any_cons, Bool.or_eq_false_iff] at h
+    by_cases hl : e.live = true
+    · have : e.id ≠ id := by
+        intro hi; have := h.1; simp [targets, hi, hl] at this
+      simp [List.filter_cons, hl, this, ih h.2]
+    · simp [List.filter_cons, hl, ih h.2]
+
+theorem live_abolish (clock : Nat) (l : List (Entry α)) :
+    (l.map (fun e => if e.live then e.kill clock else e)).filter Entry.live = [] := by
+  induction l with
+  | nil => rfl
+  | cons e l ih =>
+    by_cases hl : e.live = true
+    · have hk : (e.kill clock).live = false := rfl
+      simp [hl, hk, ih]
+    · simp [hl, ih]
+
+/-- the clause store after an update is the plain-list update of the clause store before -/
+theorem liveList_apply (db : DB α) (u : Upd α) :
+    (db.apply u).liveList = ((⟨db.liveList, db.next⟩ : Spec α).apply u).cls ∧
+    (db.apply u).next = ((⟨db.liveList, db.next⟩ : Spec α).apply u).next := by
+  cases u with
+  | assertz c =>
+    have hn : (⟨db.next, db.clock, none, c⟩ : Entry α).live = true := rfl
+    refine ⟨?_, rfl⟩
+    simp [DB.apply, DB.liveList, Spec.apply, List.filter_append, List.filter_cons, hn]
+  | asserta c =>
+    have hn : (⟨db.next, db.clock, none, c⟩ : Entry α).live = true := rfl
+    refine ⟨?_, rfl⟩
+    simp [DB.apply, DB.liveList, Spec.apply, List.filter_cons, hn]
+  | retractId id =>
+    by_cases ha : db.chain.any (targets id) = true
+    · refine ⟨?_, ?_⟩
+      · simp only [DB.apply, ha, if_true, DB.liveList, Spec.apply]
+        exact live_kill_filter id db.clock db.chain
+      · simp [DB.apply, ha, Spec.apply]
+    · have hf : db.chain.any (targets id) = false := by simpa using ha
+      refine ⟨?_, ?_⟩
+      · simp only [DB.apply, ha, DB.liveList, Spec.apply]
+        exact (live_no_target id db.chain hf).symm
+      · simp [DB.apply, ha, Spec.apply]
+  | abolish =>
+    refine ⟨?_, rfl⟩
+    simp [DB.apply, DB.liveList, Spec.apply, live_abolish]
+  | tick => exact ⟨rfl, rfl⟩
+
+theorem spec_apply {db : DB α} (h : WF db) (u : Upd α) : (db.apply u).spec = db.spec.apply u := by
+  have h1 := liveList_apply db u
+  have h2 := snapshot_eq_liveList (h.apply u)
+  have h3 := snapshot_eq_liveList h
+  unfold DB.spec
+  rw [h2, h3]
+  cases hs : (⟨db.liveList, db.next⟩ : Spec α).apply u with
+  | mk cls next =>
+    rw [hs] at h1
+    simp [h1.1, h1.2]
+
+theorem spec_applyAll {db : DB α} (h : WF db) (us : List (Upd α)) :
+    (db.applyAll us).spec = db.spec.applyAll us := by
+  induction us generalizing db with
+  | nil => rfl
+  | cons u us ih =>
+    simp only [DB.applyAll, Spec.applyAll, List.foldl_cons]
+    have := ih (h.apply u)
+    simp only [DB.applyAll, Spec.applyAll] at this
+    rw [this, spec_apply h u]
+
+/-! ## retract -/
+
+theorem retractRun_one (db : DB α) (p : Nat × α) (ils : List (Interlude α)) :
+    retractRun db [p] ils = ([p], db.apply (.retractId p.1)) := by
+  cases ils <;> rfl
+
+theorem retractRun_last (db : DB α) (p q : Nat × α) (qs : List (Nat × α)) :
+    retractRun db (p :: q :: qs) [] = ([p], db.apply (.retractId p.1)) := rfl
+
+theorem retractRun_more (db : DB α) (p q : Nat × α) (qs : List (Nat × α)) (il : Interlude α)
+    (ils : List (Interlude α)) :
+    retractRun db (p :: q :: qs) (il :: ils) =
+      (p :: (retractRun ((db.apply (.retractId p.1)).applyAll il.upds) (q :: qs) ils).1,
+       (retractRun ((db.apply (.retractId p.1)).applyAll il.upds) (q :: qs) ils).2) := rfl
+
+theorem retractRun_solutions (ps : List (Nat × α)) :
+    ∀ (db : DB α) (ils : List (Interlude α)),
+      (retractRun db ps ils).1 = ps.take (ils.length + 1) := by
+  induction ps with
+  | nil => intro db ils; simp [retractRun]
+  | cons p ps ih =>
+    intro db ils
+    cases ps with
+    | nil => simp [retractRun_one]
+    | cons q qs =>
+      cases ils with
+      | nil => simp [retractRun_last]
+      | cons il ils =>
+        rw [retractRun_more]
+        simp only [List.length_cons, List.take_succ_cons]
+        rw [ih]
+        simp
+
+theorem snapshot_ids_nodup {db : DB α} (h : WF db) : (db.snapshot.map Prod.fst).Nodup := by
+  have : db.snapshot.map Prod.fst = (db.chain.filter (Entry.vis db.clock)).map Entry.id := by
+    simp [DB.snapshot, view, List.map_map, Function.comp]
+  rw [this]
+  exact List.Nodup.sublist ((List.filter_sublist).map _) h.nodup
+
+theorem filter_ne_of_nodup (pre post : List (Nat × α)) (p : Nat × α)
+    (h : ((pre ++ p :: post).map Prod.fst).Nodup) :
+    (pre ++ p :: post).filter (fun q => q.1 != p.1) = pre ++ post := by
+  rw [List.map_append, List.map_cons, List.nodup_append] at h
+  obtain ⟨_, h2, h3⟩ := h
+  rw [List.nodup_cons] at h2
+  rw [List.filter_append, List.filter_cons]
+  simp only [bne_self_eq_false, Bool.false_eq_true, if_false]
+  congr 1
+  · apply List.filter_eq_self.mpr
+    intro q hq
+    have := h3 q.1 (List.mem_map_of_mem hq) p.1 (List.mem_cons_self ..)
+    simpa using this
+  · apply List.filter_eq_self.mpr
+    intro q hq
+    have : q.1 ≠ p.1 := fun he => h2.1 (he ▸ List.mem_map_of_mem hq)
+    simpa using this
+
+/-- one update does not change what an older generation sees of the whole chain -/
+theorem view_apply (db : DB α) (u : Upd α) (cc : Nat) (hc : cc ≤ db.clock) :
+    view cc (db.apply u).chain = view cc db.chain := by
+  obtain ⟨g, front, back, hq, hch, hf, hb⟩ := apply_shape db u
+  rw [hch, view_append, view_append,
+    view_all_new cc front (fun e he => by have := (hf e he).1; omega),
+    view_all_new cc back (fun e he => by have := (hb e he).1; omega),
+    view_map cc g _ hq.id hq.cl (fun e _ => hq.vis e cc hc)]
+  simp
+
+theorem view_applyAll (db : DB α) (us : List (Upd α)) (cc : Nat) (hc : cc ≤ db.clock) :
+    view cc (db.applyAll us).chain = view cc db.chain := by
+  induction us generalizing db with
+  | nil => rfl
+  | cons u us ih =>
+    have h1 := ih (db.apply u) (Nat.le_trans hc (clock_le_apply db u))
+    simp only [DB.applyAll, List.foldl_cons] at h1 ⊢
+    rw [h1, view_apply db u cc hc]
+
 end Scryer.Luv
